@@ -12,6 +12,8 @@ def default_menu(ent, case):
     if fid.startswith("con"):
         ncomp = len(ent["val"])
         return [[name, i] for i in range(ncomp) for name in CON_MENU]
+    if fid == "cb":
+        return ["stop"]
     return []
 
 
